@@ -2,6 +2,7 @@
 
 import json
 import os
+import stat
 import shutil
 import subprocess
 from pathlib import Path
@@ -12,7 +13,7 @@ from .core import HarnessError
 
 
 def write_tree(root: Path, files: dict) -> None:
-    """*files*: relpath -> bytes | str | ("symlink", target) | ("dir",)."""
+    """*files*: relpath -> bytes | str | ("symlink", target) | ("dir",) | ("socket",)."""
     for rel, content in files.items():
         p = root / rel
         p.parent.mkdir(parents=True, exist_ok=True)
@@ -21,6 +22,9 @@ def write_tree(root: Path, files: dict) -> None:
                 os.symlink(content[1], p)
             elif content[0] == "dir":
                 p.mkdir(exist_ok=True)
+            elif content[0] == "socket":
+                # a directory entry that is neither file, directory nor link; opening it fails at once (ENXIO), it never blocks
+                os.mknod(p, 0o644 | stat.S_IFSOCK)
             else:
                 raise HarnessError(f"unknown node kind {content!r}")
         elif isinstance(content, str):
